@@ -216,6 +216,12 @@ def _call(args):
         return ("harness", idx, traceback.format_exc())
 
 
+def _worker_init():
+    # a probe the parent may own must not be shared with (or closed by) a forked worker
+    global _WORKER_PROBE
+    _WORKER_PROBE = None
+
+
 def _worker_exit():
     global _WORKER_PROBE
     if _WORKER_PROBE is not None:
@@ -242,7 +248,7 @@ def shard_map(func, chunks, extra=(), procs=None):
     procs = min(procs, len(chunks))
     results = [None] * len(chunks)
     ctx = mp.get_context("fork")
-    with ctx.Pool(processes=procs) as pool:
+    with ctx.Pool(processes=procs, initializer=_worker_init) as pool:
         try:
             for status, idx, res in pool.imap_unordered(
                     _call, [(func, i, c, extra) for i, c in enumerate(chunks)]):
